@@ -185,6 +185,9 @@ class Model:
         elif k == 'beats':
             c = self.clocks[op[1]]
             c.base_secs, c.base_beats = fr(now), fr(op[2])
+        elif k == 'beats_add':
+            c = self.clocks[op[1]]
+            c.base_secs, c.base_beats = fr(now), c.secs2beats(now) + fr(op[2])
         elif k == 'meter':
             c = self.clocks[op[1]]
             b = c.secs2beats(now)
@@ -309,20 +312,22 @@ class Model:
             t = self.key_to_secs(best['clock'], best['key'])
             if self.until is not None and t > self.until:
                 break
-            t = max(t, self.now)   # beats moved forward: performed at once
+            # a task left behind by a forward jump of its clock's beats is
+            # performed at once, with the logical time it was scheduled for
+            phys = max(t, self.now)
             # simultaneous events on different clocks: order is unspecified
             # Events on different clocks closer than the wake-up latency a
             # real-time thread may suffer (the simulation injects up to
             # 1/64 s) have no defined order in RT.
             for e in self.queue:
                 if e is not best and e['clock'] != best['clock'] and abs(
-                        self.key_to_secs(e['clock'], e['key']) -
-                        self.key_to_secs(best['clock'], best['key'])) \
+                        max(self.key_to_secs(e['clock'], e['key']),
+                            self.now) - phys) \
                         <= self.WINDOW and (self.interacts(best['r']) or
                                             self.interacts(e['r'])):
                     self.simultaneous = True
             self.queue.remove(best)
-            self.now = t
+            self.now = phys
             self.last_event = max(self.last_event, t)
             r = self.routines[best['r']]
             if r.state != 'suspended':
@@ -338,7 +343,8 @@ class Model:
     # ops by which a routine changes what other routines observe; two
     # routines that only log / wait / send / wait on conditions do not
     # influence one another, whatever their relative order
-    INTERACTING = {'pause', 'resume', 'stop', 'tempo', 'beats', 'meter',
+    INTERACTING = {'pause', 'resume', 'stop', 'tempo', 'beats', 'beats_add',
+                   'meter',
                    'play', 'sched', 'csignal', 'ctest', 'cunhang', 'fset'}
 
     def interacts(self, rname):
